@@ -41,7 +41,9 @@ HARNESS(h_entry_safe)
     INTERP_RIG(it, st); ABSMEM_SETUP(); NONDET(u16, op); NONDET(u16, ex);
     for (int i = 0; i < 3; i++) it.interrupt_pending.e[i] = 0;
     it.vinterrupt_pending = 0; it.vinterrupt_address = 0; it.vinterrupt_context_switch = 0;
+#ifndef C18_SKELETON          /* a listed finding's region predicate names the inputs of the harness its obligation uses */
     REGION_HOOK();
+#endif
 #ifdef VERIF_CBMC
     ASSUME(CAT(vdec_Interpreter_match_, ENTRY)(op));
     CAT(vdec_Interpreter_call_, ENTRY)(&it, op, ex);
@@ -53,6 +55,7 @@ HARNESS(h_entry_safe)
     Interpreter_Run(&it, 1);
 #endif
     CHECK(verif_outcome == 0, "the instruction returned (aborting paths end before this point)");
+    CBMC_ONLY(CHECK(wf_regs(&st), "the register state stays within the hardware widths (the invariant the safety of the NEXT instruction rests on)");)
     OUT(st); ABSMEM_OUT(); CANARY();
 }
 /* one cycle of Run with the instruction abstracted: fetch addresses, loop-frame indices, interrupt vectors */
@@ -62,7 +65,9 @@ HARNESS(h_run_safe)
     NONDET_ARR(bool, ipend, 3); NONDET(bool, vpend); NONDET(u32, vaddr); NONDET(bool, vctx);
     for (int i = 0; i < 3; i++) { NORM_BOOL(ipend[i]); it.interrupt_pending.e[i] = ipend[i]; }
     NORM_BOOL(vpend); NORM_BOOL(vctx); it.vinterrupt_pending = vpend; it.vinterrupt_address = vaddr & 0x3FFFF; it.vinterrupt_context_switch = vctx;
+#ifdef C18_SKELETON
     REGION_HOOK();
+#endif
     NATIVE_ONLY(ASSUME(am_ppeek(st.pc | ((u32)st.prpage << 18)) == 0);)
     Interpreter_Run(&it, 1);
     CHECK(verif_outcome == 0, "the cycle returned");
